@@ -161,6 +161,15 @@ PROPS = {
         "level_note": "Trusted: Lean kernel; model Chain/BridgeValset.lean; the Solidity scanner (regex skeleton of the two functions); secp256k1 recovery in the harness (go-ethereum) for the validity marks; the EVM-clock staleness guard of _checkValidatorSignatures (relayer liveness) and the 100-validator upper range are outside the explored space (theorems are size-independent, histories use up to 8 validators).",
         "trusted": ["model Chain/BridgeValset.lean", "extract/sol_scan.py", "harness chain_test.go, fam_valset_test.go"],
     },
+    "C19": {
+        "props_module": "LayerModel.Props.C19",
+        "families": [("authz", 64, 1500, "chain")],
+        "gen": ["facts", "formulas", "proto:scan"],
+        "rule": "authz: histories (real app, one transaction per block) with at least two privileged messages signed by ordinary accounts and at least ten executed ordinary transactions; distinct = distinct histories",
+        "level_text": "Theorems for every sequence of transactions (any message, any value in the authority field, any order): a privileged message (parameter updates of the two parameterised modules, cycle-list replacement, data-spec update, start of minting, snapshot-limit change) is executed only when signed by the governance authority; the team address changes only at the request of the current team address; as long as neither signs, parameters, cycle list, minting flag, snapshot limit and team stay as they are and every registered data spec keeps its content; re-registration of an existing type is never executed. The model's assumptions are proved equal to tables regenerated from /repo on every run: the handlers with a leading guard are exactly the six authority-guarded ones (guard is statement 0, no store write before it), UpdateTeam and RegisterSpec; every function writing a governed collection is one of these or genesis/block code; the proto files declare exactly one signer field per message (25 messages), `authority` for the six privileged ones. Tie to the application and the frame half of the statement: the real app runs generated histories, one transaction per block, covering every message type of every module with signers different from every other named account, privileged messages signed by ordinary accounts (own or governance address in the authority field), the same changes through real governance proposals, team hand-overs; the model's accept/reject decisions and tracked state are compared with the implementation's, and monitors on the implementation's own data check that governed items change only in blocks with an executed proposal (team: only by the team; specs: never replaced) and that no account other than the signer loses liquid balance, delegated stake, reward credit or its reporter selection, except the three listed exceptions (funded dispute -> disputed reporter and its selectors; fee from bond -> the paying reporter's selectors; removal of a selector below the minimum of a full reporter).",
+        "level_note": "Trusted: Lean kernel; model Chain/Authz.lean (the SDK's signer check and store branching are modelled as: a transaction not signed by the declared signer, or whose handler fails, leaves no trace); extractor (go/ast guard recognition) and proto scanner; the frame half is decided by monitors over generated histories (exploration), not by a theorem about the handlers' code.",
+        "trusted": ["model Chain/Authz.lean", "extract/main.go (guards, governed writes), extract/proto_scan.py", "harness chain_test.go, fam_authz_test.go"],
+    },
     "C17": {
         "props_module": "LayerModel.Props.C17",
         "families": [("proposal", 96, 2500, "chain")],
